@@ -1,24 +1,188 @@
 package stringx
 
+// C20 — stringx.ToCamel / ToSnake: round trip on snake-case identifiers and
+// totality on arbitrary strings. Harness injected by /verif (overlay).
+
 import (
+	"fmt"
+	"strconv"
+	"strings"
 	"testing"
+	"unicode/utf8"
 
 	"pgregory.net/rapid"
 	"verif.local/kit"
 )
 
-type c20Probe struct {
-	T string `json:"t"`
+type c20Snake struct {
+	W []string `json:"w"` // lower-case ASCII words; the identifier is their join with "_"
 }
 
-func TestVerif_C20_probe(t *testing.T) {
-	kit.Run(t, "C20", "probe", kit.Opts{Quick: 10, Thorough: 10},
-		func(rt *rapid.T) c20Probe { return c20Probe{T: rapid.SampledFrom([]string{"go_designer"}).Draw(rt, "t")} },
-		func(c c20Probe) kit.Verdict {
-			_, err := From(c.T).ToCamel(), error(nil)
-			if err != nil {
-				return kit.Verdict{Fail: err.Error()}
+type c20Any struct {
+	S string `json:"s"` // strconv.Quote'd without the outer quotes (may be invalid UTF-8)
+}
+
+func c20Q(s string) string { q := strconv.Quote(s); return q[1 : len(q)-1] }
+
+func c20U(s string) string {
+	u, err := strconv.Unquote(`"` + s + `"`)
+	if err != nil {
+		panic("c20: case string does not unquote: " + s)
+	}
+	return u
+}
+
+func c20Guard(f func() string) (out string, panicked string) {
+	defer func() {
+		if p := recover(); p != nil {
+			panicked = fmt.Sprint(p)
+		}
+	}()
+	return f(), ""
+}
+
+func c20Capital(w string) string { return string(w[0]-('a'-'A')) + w[1:] }
+
+// camel-roundtrip: s = w1_w2_..._wn, wi in [a-z]+  =>  ToSnake(ToCamel(s)) == s,
+// and ToCamel(s) is the words capitalised and concatenated (the first word may
+// stay lower-case: both forms are "camel case").
+func TestVerif_C20_camel_roundtrip(t *testing.T) {
+	word := rapid.Custom(func(rt *rapid.T) string {
+		switch k := rapid.IntRange(0, 9).Draw(rt, "wk"); {
+		case k < 2:
+			return rapid.StringMatching(`[a-z]`).Draw(rt, "w")
+		case k < 9:
+			return rapid.StringMatching(`[a-z]{2,8}`).Draw(rt, "w")
+		default:
+			return rapid.StringMatching(`[a-z]{9,24}`).Draw(rt, "w")
+		}
+	})
+	kit.Run(t, "C20", "camel-roundtrip", kit.Opts{Quick: 10000, Thorough: 1600000},
+		func(rt *rapid.T) c20Snake { return c20Snake{W: rapid.SliceOfN(word, 1, 7).Draw(rt, "words")} },
+		func(c c20Snake) (v kit.Verdict) {
+			for _, w := range c.W { // replay files are data: re-check the precondition
+				if w == "" || strings.Trim(w, "abcdefghijklmnopqrstuvwxyz") != "" {
+					v.Excluded = true
+					return v
+				}
 			}
-			return kit.Verdict{NonTrivial: true}
+			s := strings.Join(c.W, "_")
+			upperCamel, lowerCamel := "", ""
+			single := false
+			for i, w := range c.W {
+				upperCamel += c20Capital(w)
+				if i == 0 {
+					lowerCamel += w
+				} else {
+					lowerCamel += c20Capital(w)
+				}
+				if len(w) == 1 {
+					single = true
+				}
+			}
+			switch n := len(c.W); {
+			case n == 1:
+				v.Classes = append(v.Classes, "words=1")
+			case n == 2:
+				v.Classes = append(v.Classes, "words=2")
+			default:
+				v.Classes = append(v.Classes, "words>=3")
+			}
+			if single {
+				v.Classes = append(v.Classes, "single-letter-word")
+			}
+			v.NonTrivial = len(c.W) >= 2
+
+			camel, p := c20Guard(func() string { return From(s).ToCamel() })
+			if p != "" {
+				return v.Failf("From(%q).ToCamel() panicked: %s", s, p)
+			}
+			if camel != upperCamel && camel != lowerCamel {
+				return v.Failf("From(%q).ToCamel() = %q, want %q (or %q)", s, camel, upperCamel, lowerCamel)
+			}
+			back, p := c20Guard(func() string { return From(camel).ToSnake() })
+			if p != "" {
+				return v.Failf("From(%q).ToSnake() panicked: %s", camel, p)
+			}
+			if back != s {
+				return v.Failf("ToSnake(ToCamel(%q)) = ToSnake(%q) = %q, want %q", s, camel, back, s)
+			}
+			camel2, _ := c20Guard(func() string { return From(s).ToCamel() })
+			back2, _ := c20Guard(func() string { return From(camel).ToSnake() })
+			if camel2 != camel || back2 != back {
+				return v.Failf("conversion of %q not deterministic: %q/%q then %q/%q", s, camel, back, camel2, back2)
+			}
+			return v
+		})
+}
+
+// stringx-total: the conversions neither panic nor depend on anything but the
+// receiver, for any byte string. (Title/UnTitle/ToLower/ToUpper are called by
+// the conversions or sit next to them; they are run for panics only.)
+func TestVerif_C20_stringx_total(t *testing.T) {
+	special := []string{"ſ", "ı", "ǆ", "ǅ", "İ", "ß", "ŉ", "ﬁ", "É", "é", "用户", "\xff", "\xc3", "\xe4\xb8", "\xed\xa0\x80",
+		"�", " ", " ", "\t", "\n", "\x00", "'", "’", "-", ".", "_", "__", "A", "a", "Z", "1", "́", "‍", "🙂"}
+	piece := rapid.OneOf(
+		rapid.SampledFrom(special),
+		rapid.StringMatching(`[a-zA-Z0-9_]{0,5}`),
+		rapid.StringN(0, 3, 12),
+		rapid.Custom(func(rt *rapid.T) string { return string(rapid.SliceOfN(rapid.Byte(), 0, 4).Draw(rt, "b")) }),
+	)
+	kit.Run(t, "C20", "stringx-total", kit.Opts{Quick: 10000, Thorough: 1600000},
+		func(rt *rapid.T) c20Any {
+			return c20Any{S: c20Q(strings.Join(rapid.SliceOfN(piece, 1, 6).Draw(rt, "pieces"), ""))}
+		},
+		func(c c20Any) (v kit.Verdict) {
+			s := c20U(c.S)
+			ascii := true
+			for i := 0; i < len(s); i++ {
+				if s[i] >= utf8.RuneSelf {
+					ascii = false
+				}
+			}
+			switch {
+			case s == "":
+				v.Classes = append(v.Classes, "empty")
+			case !utf8.ValidString(s):
+				v.Classes = append(v.Classes, "invalid-utf8")
+			case !ascii:
+				v.Classes = append(v.Classes, "unicode")
+			default:
+				v.Classes = append(v.Classes, "ascii")
+			}
+			if strings.TrimSpace(s) == "" && s != "" {
+				v.Classes = append(v.Classes, "blank")
+			}
+			v.NonTrivial = strings.Trim(s, "abcdefghijklmnopqrstuvwxyz_") != ""
+			fns := []struct {
+				name string
+				f    func(String) string
+			}{
+				{"ToCamel", String.ToCamel}, {"ToSnake", String.ToSnake},
+				{"Title", String.Title}, {"UnTitle", String.UnTitle},
+				{"ToLower", String.ToLower}, {"ToUpper", String.ToUpper},
+			}
+			var first [6]string
+			for round := 0; round < 2; round++ {
+				for i, fn := range fns {
+					out, p := c20Guard(func() string { return fn.f(From(s)) })
+					if p != "" {
+						return v.Failf("From(%q).%s() panicked: %s", s, fn.name, p)
+					}
+					if round == 0 {
+						first[i] = out
+					} else if out != first[i] {
+						return v.Failf("From(%q).%s() not deterministic: %q then %q", s, fn.name, first[i], out)
+					}
+				}
+			}
+			// chained, as the generator uses them
+			if _, p := c20Guard(func() string { return From(From(s).ToCamel()).ToSnake() }); p != "" {
+				return v.Failf("ToSnake(ToCamel(%q)) panicked: %s", s, p)
+			}
+			if _, p := c20Guard(func() string { return From(From(s).ToSnake()).ToCamel() }); p != "" {
+				return v.Failf("ToCamel(ToSnake(%q)) panicked: %s", s, p)
+			}
+			return v
 		})
 }
